@@ -95,6 +95,7 @@ func c03Spell(t *fw.T) {
 	inlineOK := r.Intn(2) == 0
 	if inlineOK {
 		o.NoModuleItems = true
+		o.YieldName = o.CtxNames // (script code: yield is an identifier outside generators and strict code)
 	}
 	prog := gen.JSProgram(r, o)
 	ref, _ := gen.JSSpell(prog, c03RefStyle)
@@ -255,7 +256,8 @@ func c03ForbiddenFragment(r *rand.Rand) string {
 
 func c03Reject(t *fw.T) {
 	r := t.Rng
-	prog := gen.JSProgram(r, gen.JSOpts{NoModuleItems: true, MaxStmts: 3, NoRegex: true, CtxNames: r.Intn(2) == 0})
+	ctx := r.Intn(2) == 0
+	prog := gen.JSProgram(r, gen.JSOpts{NoModuleItems: true, MaxStmts: 3, NoRegex: true, CtxNames: ctx, YieldName: ctx})
 	st := gen.JSStyle{Parens: r.Intn(3), Semi: 0, WS: r.Intn(2), Seed: r.Int63()}
 	src, _ := gen.JSSpell(prog, st)
 	if _, err := js.Parse(parse.NewInputString(src), js.Options{}); err != nil {
